@@ -245,9 +245,11 @@ func decorations(b base, thorough bool) []decor {
 			for vi, raw := range []string{
 				"`json:\"" + name + "\" parquet:\"" + name + "\"`",
 				"`parquet:\"" + name + "\" json:\"-\"`",
+				"`json:\"" + name + ",omitempty\" parquet:\"" + name + "\"`",
 				"`db:\"x\" parquet:\"" + name + "\" json:\"y,omitempty\"`",
+				"`json:\",omitempty\" xml:\"a b,attr\" parquet:\"" + name + "\"`",
 			} {
-				if !thorough && vi > 1 {
+				if !thorough && vi > 2 {
 					break
 				}
 				st := cloneStructs(b.Structs)
@@ -258,7 +260,8 @@ func decorations(b base, thorough bool) []decor {
 			}
 		}
 		for pos := 0; pos <= len(s.Fields); pos += len(s.Fields) + 0 {
-			for vi, raw := range []string{"`json:\"excl\" parquet:\"-\"`", "`parquet:\"-\" json:\"excl\"`", "`json:\"-\" parquet:\"-\" db:\"-\"`"} {
+			for vi, raw := range []string{"`json:\"excl\" parquet:\"-\"`", "`parquet:\"-\" json:\"excl\"`", "`json:\"-\" parquet:\"-\" db:\"-\"`",
+				"`json:\"excl,omitempty\" parquet:\"-\"`", "`json:\",omitempty\" parquet:\"-\"`", "`parquet:\"-\" json:\"excl,omitempty\"`"} {
 				st := cloneStructs(b.Structs)
 				fs := append([]fdef(nil), st[si].Fields[:pos]...)
 				fs = append(fs, fdef{Name: "Excl", Type: "int32", Tag: raw})
@@ -291,9 +294,6 @@ func decorations(b base, thorough bool) []decor {
 					}
 					st[si].Fields[i] = g
 					out = append(out, decor{Desc: fmt.Sprintf("grouped:%s:%s@%s.%d", hidden, order, s.Name, i), Structs: st})
-					if !thorough {
-						break
-					}
 				}
 				if !thorough {
 					break
